@@ -442,7 +442,7 @@ func c11Search(c *Ctx, tables []bitmap) {
 	}
 	sort.Slice(named, func(i, j int) bool { return named[i].trace[0] < named[j].trace[0] })
 	// deepest groups first, so that a state cap can only cut the shallow tail
-	groups = append(groups, seedGroup{named, depthNamed, "named"}, seedGroup{triReps, depthNamed - 1, "triangulation_representatives"})
+	groups = append(groups, seedGroup{named, depthNamed, "named"})
 	var subs []*pState
 	lim := 11
 	if c.Thorough() {
@@ -454,7 +454,9 @@ func c11Search(c *Ctx, tables []bitmap) {
 	subdivisions(namedNonplanarSeeds()["K3,3"], lim, func(g *BGr, d string) {
 		subs = append(subs, &pState{g: g, planar: false, trace: []string{"K3,3 subdivided " + d}})
 	})
-	groups = append(groups, seedGroup{subs, depthAll, "subdivisions"}, seedGroup{triSmall, depthAll, "triangulations"}, seedGroup{triEight, 0, "triangulations_n8"})
+	// the representatives group (one triangulation per degree sequence plus up to three "triangulation + subdivided
+	// extra edge" graphs per triangulation) is by far the largest once expanded, so it comes last among the expanded ones
+	groups = append(groups, seedGroup{subs, depthAll, "subdivisions"}, seedGroup{triSmall, depthAll, "triangulations"}, seedGroup{triEight, 0, "triangulations_n8"}, seedGroup{triReps, depthNamed - 1, "triangulation_representatives"})
 	c.Count("subdivision_seeds", int64(len(subs)))
 
 	km8 := kuratowskiMasks(8)
@@ -488,6 +490,7 @@ func c11Search(c *Ctx, tables []bitmap) {
 		})
 	}
 	capped := false
+	cappedIn := ""
 	for _, grp := range groups {
 		var frontier []*pState
 		for _, s := range grp.states {
@@ -516,6 +519,9 @@ func c11Search(c *Ctx, tables []bitmap) {
 			for _, s := range frontier {
 				if states+int64(len(next)) > stateCap {
 					capped = true
+					if cappedIn == "" {
+						cappedIn = fmt.Sprintf("%s at depth %d", grp.name, depth+1)
+					}
 					break
 				}
 				pOps(s, func(ns *pState) {
@@ -536,7 +542,7 @@ func c11Search(c *Ctx, tables []bitmap) {
 		}
 	}
 	if capped {
-		c.CapHit(fmt.Sprintf("part B state cap %d reached", stateCap))
+		c.CapHit(fmt.Sprintf("part B state cap %d reached while expanding group %s; all earlier groups were explored to their stated depth", stateCap, cappedIn))
 	}
 	if c.Expired() {
 		c.CapHit("deadline in part B")
